@@ -70,6 +70,25 @@ def fl(x):
 
 
 SELFCHECK_PER_JOB = 2
+FORCED = {}          # choice name -> value, set by replay_by_choices
+
+
+def replay_by_choices(func, kwargs, choices):
+    """replay of a harness whose only symbolic inputs are choices: re-run the harness function in this (fresh, unshimmed) process with every
+    choice forced to the recorded value - a single concrete run of the real code.  Returns a description when the property fails again."""
+    global FORCED
+    FORCED = dict(choices or {})
+    try:
+        kw = dict(kwargs)
+        kw.pop("part", None)
+        r = func(**kw)
+    finally:
+        FORCED = {}
+    if r["verdict"] == "counterexample":
+        return "%s (choices %r)" % (r["cex"]["message"] if r.get("cex") else r.get("message"), choices)
+    if r["verdict"] not in ("confirmed_all_paths",):
+        raise RuntimeError("replay by choices inconclusive: %s %s" % (r["verdict"], r.get("message")))
+    return None
 
 
 class Job:
@@ -88,11 +107,28 @@ def result(harness, engine, verdict, stats=None, bounds=None, functions=(), assu
             "message": message, "shims": shims or {}, "extra": extra or {}}
 
 
+def _with_choices(concretize):
+    import z3 as _z3
+
+    def conc(m, info):
+        out = concretize(m, info) if concretize is not None else {}
+        if isinstance(out, dict):
+            ch = {}
+            for d in m.decls():
+                v = m[d]
+                if _z3.is_int_value(v):
+                    ch[str(d)] = v.as_long()
+            out = dict(out, _choices=ch)
+        return out
+    return conc
+
+
 def run_symx(harness, fn, functions, bounds, timeout, assumptions=(), concretize=None, shims=None, logic=None,
              int_lo=-64, int_hi=64, max_paths=10**9, path_hook=None, engine="E2 symx", forced=None, part=None):
     """run one symx harness function to a result dict.  `concretize(model, info)` turns a model into
     JSON-able concrete inputs for the replay."""
     from engine import symx
+    concretize = _with_choices(concretize)
     ex = symx.Explorer(timeout=timeout, logic=logic, int_lo=int_lo, int_hi=int_hi, max_paths=max_paths)
     selfcheck = []
 
@@ -108,7 +144,7 @@ def run_symx(harness, fn, functions, bounds, timeout, assumptions=(), concretize
         if path_hook is not None:
             path_hook(e)
     ex.path_hook = hook
-    ex.forced = dict(forced or {})
+    ex.forced = dict(forced or {}, **FORCED)
     t0 = time.time()
     try:
         verdict, info = ex.run(fn, share=tuple(part[:2]) if part else None, depth=(part[2] if part and len(part) > 2 else 9))
